@@ -152,6 +152,26 @@ static std::string handle(const std::string& cmd, const std::string& args) {
     a2.ter_status = b.ter_status = 0;
     std::string r = ps::first_diff(ps::dump(a2, o), ps::dump(b, o));
     if (!r.empty()) return "PDB route and mmCIF route differ: " + r + " pdb=" + hex_encode(pdb);
+    // the connections (LINK/SSBOND records vs _struct_conn), each route starting from the ORIGINAL structure:
+    // a defect of one writer cannot hide by feeding the other route
+    Structure direct = st;
+    setup_entities(direct);
+    assign_label_seq_id(direct, false);
+    Structure c = from_cif_text(doc_text(make_mmcif_document(direct, MmcifOutputGroups(true))));
+    auto conn_lines = [&](const Structure& x) {
+      std::string all = ps::dump(x, o), out;
+      size_t pos = 0;
+      while (pos < all.size()) {
+        size_t e = all.find('\n', pos);
+        if (e == std::string::npos) e = all.size();
+        if (all.compare(pos, 5, "conn ") == 0) out += all.substr(pos, e - pos) + "\n";
+        pos = e + 1;
+      }
+      return out;
+    };
+    std::string ca = conn_lines(a2), cc = conn_lines(c);
+    if (ca != cc) return "connections differ between the PDB file and the mmCIF file of the same structure: " +
+                         ps::first_diff(ca, cc) + " pdb=" + hex_encode(pdb);
     return "ok";
   }
   if (cmd == "dbg_cif") {
